@@ -21,7 +21,7 @@ VARIANTS = {
 }
 
 WRAPS = ["time", "gettimeofday", "open", "close", "read", "write", "lseek", "fstat",
-         "ftruncate", "fsync", "malloc", "calloc", "realloc", "free"]
+         "ftruncate", "fsync", "malloc", "calloc", "realloc", "free", "fopen", "fclose", "fwrite", "fread"]
 
 COMMON_SRC = ["vlib.c", "memdev.c", "sysio.c", "peek.c", "fmt.c", "gen.c", "rt_common.c"]
 
